@@ -885,8 +885,11 @@ def slice_head(n, *, offset=0):
 
 def group_by(*cols, add=False):
     def f(t: RTable):
-        ids = [_colarg(t, c) for c in cols]
-        return t._clone(_group=(t._group + ids) if add else ids)
+        ids = []
+        for c in ((t._group if add else []) + [_colarg(t, c) for c in cols]):
+            if c not in ids:  # a column groups once
+                ids.append(c)
+        return t._clone(_group=ids)
 
     return f
 
@@ -913,6 +916,8 @@ def summarize(**kw):
         for c in t._group:
             if names_vis.get(c) in kw:
                 continue
+            if c not in names_vis:
+                continue  # a grouping column that is no longer visible groups, but is not shown
             cols[c] = t._cols[c]
             vis.append((names_vis[c], c))
         if t._group:
